@@ -100,8 +100,12 @@ func (s *Sub) Context() context.Context         { return context.Background() }
 func (s *Sub) Updates() <-chan nats.KeyValueEntry { return s.ch }
 func (s *Sub) Error() <-chan error              { return s.errs }
 func (s *Sub) Stop() error {
-	s.d.mu.Lock()
-	defer s.d.mu.Unlock()
+	mu := &s.d.mu
+	if s.d.free {
+		mu = &s.d.smu
+	}
+	mu.Lock()
+	defer mu.Unlock()
 	s.closeLocked()
 	return nil
 }
@@ -152,6 +156,21 @@ func (d *Driver) watchFault(kind string, inst int, t time.Duration) *Fault {
 }
 
 func (d *Driver) scheduleDelivery(s *Sub, v *Version, marker bool) {
+	if d.free {
+		// free-run mode: delivered at once by the goroutine that applied the write
+		if s.closed {
+			return
+		}
+		var e nats.KeyValueEntry
+		if v != nil {
+			e = &stubEntry{bucket: d.plan.Bucket, v: v}
+		}
+		select {
+		case s.ch <- e:
+		default:
+		}
+		return
+	}
 	now := d.lastNow
 	if !marker {
 		if f := d.watchFault(FWatchDrop, s.inst, now); f != nil {
